@@ -17,6 +17,8 @@ PLAN = {
     "C15": [("B", 1200, 100000, {})],
     "C16": [("B", 1000, 80000, {})],
     "C17": [("B", 1200, 100000, {})],
+    "C12": [("BELT", 6000, 600000, {})],
+    "C13": [("BELT", 6000, 600000, {})],
     "C14": [("A", 8000, 600000, {})],
     "C20": [("A", 4000, 300000, {"kinds": ["fls", "flt", "cconv", "sconv", "buf"]})],
 }
